@@ -20,23 +20,7 @@ import numpy as np  # noqa
 from spec.relations_py import RELATIONS, EXACT, ENTAILING  # noqa
 
 
-class Timeout(Exception):
-    pass
-
-
-def _alarm(*_a):
-    raise Timeout()
-
-
-signal.signal(signal.SIGALRM, _alarm)
-
-
-def guarded(f, secs=1.0):
-    signal.setitimer(signal.ITIMER_REAL, secs)
-    try:
-        return f()
-    finally:
-        signal.setitimer(signal.ITIMER_REAL, 0)
+from harness.watchdog import Timeout, guarded  # wall-clock trigger + deterministic confirmation (load-independent verdicts)
 
 
 CLAUSE_PROPS = {"P1": ["C05", "C08"], "P2": ["C05", "C14"], "P3": ["C06", "C01"], "P4": ["C07"], "P5": ["C14"], "P6": ["C14"], "P8": ["C16"], "P9": ["C04"]}
@@ -105,8 +89,8 @@ def prop_scopes(name, tier):
         for l in itertools.product((0, 1, 2), repeat=3):
             yield 2, list(l), (-1, 3)
     elif name == "element_lic":
-        for n in (2, 3):
-            yield n, [1], (-1, 2)
+        for n in ((2, 3, 4, 5) if big else (2, 3, 4)):  # lists of length >= 3: the index bound may have to move by more than one position
+            yield n, [1], ((-1, 2) if n < 5 else (0, 2))
     elif name == "element_liv":
         for n in (3, 4):
             yield n, [], (-1, 2)
@@ -134,9 +118,15 @@ def suite_prop(name, pid, tier, seed):
             if time.time() > t_end:
                 break
             d = np.array(box, dtype=np.int32).reshape(n, 2)
+            d_in = d.copy()
             ev += 1
+
+            def call_once(d=d, d_in=d_in):
+                d[:] = d_in  # re-runnable: the confirmation run of the watchdog starts from the input box again
+                return f(d, p_arr)
+
             try:
-                status = int(guarded(lambda: f(d, p_arr), 0.5))
+                status = int(guarded(call_once, 0.5))
             except Timeout:
                 report("P9", n, params, box, None, None, "no termination within 0.5s")
                 continue
@@ -177,8 +167,14 @@ def suite_prop(name, pid, tier, seed):
                         report("P5", n, params, box, out, status, f"bounds hull is {hull}")
                     else:
                         d2 = d.copy()
+                        d2_in = d.copy()
+
+                        def call_again(d2=d2, d2_in=d2_in):
+                            d2[:] = d2_in
+                            return f(d2, p_arr)
+
                         try:
-                            s2 = int(guarded(lambda: f(d2, p_arr), 0.5))
+                            s2 = int(guarded(call_again, 0.5))
                             if s2 == 0 or d2.tolist() != out:
                                 report("P6", n, params, box, out, status, f"second call gives status {s2}, {d2.tolist()}")
                         except Exception as e:  # noqa
@@ -209,9 +205,15 @@ def suite_prop(name, pid, tier, seed):
             if time.time() > t_end:
                 break
             d = np.array(box, dtype=np.int32).reshape(n, 2)
+            d_in = d.copy()
             ev += 1
+
+            def call_case(d=d, d_in=d_in, params=params):
+                d[:] = d_in
+                return f(d, np.array(params, dtype=np.int32))
+
             try:
-                status = int(guarded(lambda: f(d, np.array(params, dtype=np.int32)), 5.0))
+                status = int(guarded(call_case, 5.0))
             except Timeout:
                 report("P9", n, params, box if n < 12 else "large", None, None, "no termination within 5s")
                 continue
